@@ -1,14 +1,14 @@
 #!/bin/bash
 # validate_harmless.sh : every /verif/harmless/<id>/patch.diff applies to a scratch worktree of /repo's HEAD and the suite still passes with it
 # (sequential: the documentation test of the suite uses the shared /tmp/fl).  Writes /verif/harmless/<id>/validated.txt
-wt=/var/tmp/h7/wt_validate
+wt=/var/tmp/h8/wt_validate
 [ -d $wt ] || git -C /repo worktree add -q --detach $wt HEAD
-for d in /verif/harmless/*/; do
+for d in ${HDIRS:-/verif/harmless/*/}; do
   n=$(basename $d)
   git -C $wt checkout -q -- . ; git -C $wt clean -fdq
   if ! git -C $wt apply $d/patch.diff 2>/dev/null; then echo "$n apply-failed" | tee $d/validated.txt; continue; fi
-  (cd $wt && /venv/bin/python -m pytest -q -p no:cacheprovider --timeout=900 --deselect tests/test_exporter.py::TestPythonExporter::test_object --deselect tests/test_benchmark.py::TestBenchmark::test_measure > /var/tmp/h7/suite_$n.log 2>&1); suite=$?
-  echo "$n suite=$suite $(tail -1 /var/tmp/h7/suite_$n.log)" | tee $d/validated.txt
+  (cd $wt && /venv/bin/python -m pytest -q -p no:cacheprovider --timeout=900 --deselect tests/test_exporter.py::TestPythonExporter::test_object --deselect tests/test_benchmark.py::TestBenchmark::test_measure > /var/tmp/h8/suite_$n.log 2>&1); suite=$?
+  echo "$n suite=$suite $(tail -1 /var/tmp/h8/suite_$n.log)" | tee $d/validated.txt
 done
 git -C $wt checkout -q -- . ; git -C $wt clean -fdq
 git -C /repo worktree remove --force $wt
